@@ -225,7 +225,7 @@ func c02Arg(r *Rand) string {
 	case 9:
 		return r.Pick([]string{"LS", "ACK", "NAK", "REQ", "END", "NEW", "DEL", "LIST", "ls", "*"})
 	case 10:
-		return r.Pick([]string{"sasl", "-sasl", "multi-prefix", "sasl=PLAIN", "~sasl", "=x", "a b"})
+		return r.Pick([]string{"sasl", "-sasl", "multi-prefix", "sasl=PLAIN", "~sasl", "=x", "a b", "=", "-", "--a", "a=", "-a=b", "=PLAIN", "a  b"})
 	case 11:
 		return r.Pick([]string{"+", "PLAIN", "AGFiYw==", "=", "****"})
 	case 12:
@@ -424,6 +424,21 @@ func c02Session(r *Rand, mode int) Fields {
 		}
 		pos := r.Intn(len(lines) - 3)
 		lines = append(lines[:pos], append([]string{c02LongLine(r, total)}, lines[pos:]...)...)
+	}
+	// two-step histories: a CAP LS / ACK line with hostile payload tokens (c02t.go), and LATER two
+	// well-formed ones of the same subcommand — a handler that leaves a lock behind wedges the
+	// event loop only on the next CAP line; the closing marker then stays unanswered
+	for _, sub := range []string{"LS", "ACK"} {
+		p1 := r.Intn(len(lines) - 10)
+		hostile := ":irc.example CAP * " + sub + " :" + r.Pick([]string{"=PLAIN", "=x", "=", "a =b", "-= a", "sasl =EXTERNAL"})
+		if r.Chance(30) {
+			hostile = c02HostileCapLine(r, "vbot")
+		}
+		lines = append(lines[:p1], append([]string{hostile}, lines[p1:]...)...)
+		for k := 0; k < 2; k++ {
+			p2 := p1 + 1 + r.Intn(len(lines)-p1-1)
+			lines = append(lines[:p2], append([]string{":irc.example CAP * " + sub + " :" + r.Pick([]string{"a b", "a", "multi-prefix"})}, lines[p2:]...)...)
+		}
 	}
 	for _, l := range lines {
 		in = append(in, []byte(l))
